@@ -155,6 +155,7 @@ func TestVerifC01(t *testing.T) {
 			continue
 		}
 		r := vCaseRand(seed, i)
+		caseStart := time.Now()
 		nvol := 1 + r.Intn(3)
 		ro := make([]bool, nvol)
 		full := make([]bool, nvol)
@@ -166,7 +167,7 @@ func TestVerifC01(t *testing.T) {
 		tab := newC01Table()
 		var blocks []*c01Block
 		collMode := r.Chance(1, 10)
-		bigMode := r.Chance(1, 150) || (thorough && r.Chance(1, 60))
+		bigMode := r.Chance(1, 300) || (thorough && r.Chance(1, 60))
 		nblk := 1
 		if r.Chance(1, 3) {
 			nblk = 2
@@ -205,10 +206,12 @@ func TestVerifC01(t *testing.T) {
 				blocks = append(blocks, b)
 			}
 		}
+		tEnv := time.Now()
 		env, err := ksNewEnv(ksOpts{ro: ro, blobTrash: true, lifetime: 24 * time.Hour})
 		if err != nil {
 			t.Fatal(err)
 		}
+		dEnv := time.Since(tEnv)
 		// ---- plant (by configuration index) ----
 		var tags []string
 		interesting := false
@@ -494,6 +497,9 @@ func TestVerifC01(t *testing.T) {
 		}
 		cs.Add(i, term, desc, interesting, tags...)
 		env.cleanup()
+		if el := time.Since(caseStart); el > 300*time.Millisecond && os.Getenv("VERIF_TIMING") != "" {
+			fmt.Printf("case %d took %v (env %v) big=%v ops=%v\n", i, el, dEnv, bigMode, descs)
+		}
 	}
 	cs.Write()
 }
